@@ -572,6 +572,7 @@ func runC17(c *fw.Check) {
 	c.Extra["graphs"] = total
 	c17refs(c)
 	c17generated(c)
+	c17names(c)
 }
 
 func replayC17(c *fw.Check, path string) {
